@@ -552,9 +552,72 @@ def main(prop, run):
         return 2
 
 
+def replay_chain_event(ctx, blob, path):
+    """re-executes ONE recorded call of a code->spec chain (operand layout, operation, arguments) and validates it with TLC"""
+    import traces as trmod
+    case = blob["case"]
+    wd = os.path.join(ctx.workdir, "replay-one")
+    if case.get("py"):
+        import l2replay
+        import l2chains
+        built = ctx.build_l2()
+        outdir = os.path.join(wd, "events")
+        import shutil
+        shutil.rmtree(outdir, ignore_errors=True)
+        os.makedirs(outdir)
+        a = dict(case.get("args") or {})
+        if case["act"] == "concat2":
+            print("this call appended another random array that the replay file does not carry; rerun the check with the same VERIF_SEED")
+            return 2
+        c = {"act": "pychain", "id": 0, "layout": case["from"], "ops": [[case["act"], a]], "outdir": outdir}
+        cpath = os.path.join(wd, "one.ndjson")
+        with open(cpath, "w") as f:
+            f.write(json.dumps(c) + "\n")
+        stats, fails = l2replay.replay_l2(built["l2_path"], cpath, ("l2chains", "h_chain"), seed=ctx.seed, chunk=1)
+        recs = l2chains.collect(outdir)
+        for idx, cs, w, r, why in fails:
+            print("VIOLATION property=%s replay=%s\n  %s" % (ctx.prop, path, why))
+            return 1
+        if recs and recs[0]["problems"]:
+            print("VIOLATION property=%s replay=%s\n  %s" % (ctx.prop, path, recs[0]["problems"][0][1]))
+            return 1
+        trs = [r["events"] for r in recs if r["events"]]
+        r, summary, rej = l2chains.validate(trs, wd)
+    else:
+        built = ctx.build("asan")
+        st = trmod._worker_step(case["act"], case["args"])
+        st.update({"src": "cur", "dst": "cur", "want": ["json", "type", "valid", "layout"]})
+        steps = [{"op": "build", "dst": "cur", "layout": case["from"], "want": ["json", "type", "valid", "layout"]}, st]
+        answers, crashes = replay.run_worker(built["worker"], [{"id": 0, "steps": steps}])
+        if crashes:
+            print("VIOLATION property=%s replay=%s\n  CRASH: %s" % (ctx.prop, path, crashes[0][1][:500]))
+            return 1
+        b, r0 = answers[0][0], answers[0][1]
+        print(json.dumps(r0)[:1500])
+        ev = {"op": case["act"], "args": case["args"], "v": trmod._tag(json.loads(b["json"])), "T": trmod.parse_type(b["type"])}
+        if r0.get("ok") == 1:
+            if r0.get("json_skipped"):
+                print("VIOLATION property=%s replay=%s\n  result fails validity: %r" % (ctx.prop, path, r0.get("valid")))
+                return 1
+            ev.update(ok=1, out=trmod._tag(json.loads(r0["json"])))
+        else:
+            ev.update(ok=0, out={"t": "none"})
+        r, summary, rej = trmod.validate_chains([[ev]], wd)
+    if not summary:
+        print("MACHINERY-FAILURE property=%s trace validation did not complete" % ctx.prop)
+        return 2
+    if rej:
+        print("VIOLATION property=%s replay=%s\n  the call is rejected by the specification: %s" % (ctx.prop, path, rej[0][3][:600]))
+        return 1
+    print("replay conforms")
+    return 0
+
+
 def replay_one(ctx, path):
     with open(path) as f:
         blob = json.load(f)
+    if isinstance(blob.get("case"), dict) and "chain" in blob["case"] and not (blob.get("worker_case") or {}).get("steps"):
+        return replay_chain_event(ctx, blob, path)
     built = ctx.build("opt")
     answers, crashes = replay.run_worker(built["worker"], [blob["worker_case"]])
     print(json.dumps({"answers": answers, "crashes": crashes}, indent=1)[:6000])
